@@ -470,7 +470,7 @@ package jd
 //@ contract verifTextCarrier
 //@   bounded
 //@   universe d verifWellFormedDiffs(TIER)
-//@   universe options []Option(nil)
+//@   universe options [][]Option{nil}
 //@   requires validNode(a) && verifWellFormed(d)
 //@   ensures_bounded ret0
 //@   carries C02
